@@ -129,7 +129,46 @@ def gen_lean():
     def lstr(xs):
         return "[" + ", ".join(f'"{x}"' for x in xs) + "]"
 
+    # defaults of float_tolerance at every level of compress.py (only the public entry may have one)
+    tol_defaults = []
+    for name, fn in sorted(funcs.items(), key=lambda kv: kv[1].lineno):
+        names = [a.arg for a in fn.args.args]
+        if "float_tolerance" in names:
+            k = names.index("float_tolerance") - (len(names) - len(fn.args.defaults))
+            tol_defaults.append((name, None if k < 0 else repr(lit(fn.args.defaults[k]))))
+    # encoding.pyx: the dtype substitutions of TypeCode.from_dtype, the packed-dtype table, which encoding an array gets by default
+    subst = re.findall(r"(?:if|elif)\s+(?:hasattr\(np, \"float128\"\) and )?dtype == np\.(\w+):\s*\n\s*supported_dtype = np\.(\w+)", src)
+    mp = re.search(r"def _determine_packed_dtype\(self\):(.*?)\n    @", src, re.S)
+    packed = re.findall(r"byte_count == (\d+):\s*\n\s*if self\.is_unsigned:\s*\n\s*return np\.(\w+)\s*\n\s*else:\s*\n\s*return np\.(\w+)", mp.group(1)) if mp else []
+    mu = re.search(r"def create_uncompressed_encoding\(array\):.*?\n    if np\.issubdtype\(array\.dtype, np\.(\w+)\):\s*\n\s*return \[(\w+)\(\)\]\s*\n\s*else:\s*\n\s*return \[(\w+)\(\)\]", src, re.S)
+    if len(subst) < 3 or len(packed) != 2 or not mu or not tol_defaults:
+        raise ValueError(f"encoding.pyx / compress.py no longer have the shape the translator reads: subst={subst} packed={packed} uncompressed={bool(mu)} tol={tol_defaults}")
+    # bcif.py: the underscore prefix of BinaryCIFBlock and the keys of the serialised containers
+    bsrc = open(os.path.join(paths.SRC, "biotite/structure/io/pdbx/bcif.py")).read()
+    btree = ast.parse(bsrc)
+    bkeys = {}
+    for cls in [n for n in btree.body if isinstance(n, ast.ClassDef)]:
+        for fn in [n for n in cls.body if isinstance(n, ast.FunctionDef) and n.name in ("serialize", "deserialize", "write")]:
+            ks = sorted({c.value for c in ast.walk(fn) if isinstance(c, ast.Constant) and isinstance(c.value, str) and re.fullmatch(r"[A-Za-z]+", c.value)
+                         and c.value in ("data", "mask", "encoding", "rowCount", "columns", "name", "categories", "dataBlocks", "header", "encoder", "version", "biotite")})
+            bkeys[f"{cls.name}.{fn.name}"] = ks
+    prefix_add = len(re.findall(r'"_" \+ (?:name|key)', bsrc))
+    prefix_strip = len(re.findall(r'removeprefix\("_"\)', bsrc))
+
     compress_lines = [
+        "/-- compress.py: `float_tolerance` parameter of every function that has one, with its default (`none` = no default). -/",
+        "def toleranceDefaults : List (String × Option String) := [" + ", ".join(
+            f'("{n}", ' + ("none" if d is None else f'some "{d}"') + ")" for n, d in tol_defaults) + "]",
+        "/-- `TypeCode.from_dtype`: dtype substitutions (given, stored as). -/",
+        "def dtypeSubstitutions : List (String × String) := [" + ", ".join(f'("{a}", "{b}")' for a, b in subst) + "]",
+        "/-- `IntegerPackingEncoding._determine_packed_dtype`: (byte count, unsigned dtype, signed dtype). -/",
+        "def packedDtypes : List (Nat × String × String) := [" + ", ".join(f'({int(b)}, "{u}", "{sg}")' for b, u, sg in packed) + "]",
+        "/-- `create_uncompressed_encoding`: (numpy kind tested, encoding if it is that kind, encoding otherwise). -/",
+        f'def uncompressedDefault : String × String × String := ("{mu.group(1)}", "{mu.group(2)}", "{mu.group(3)}")',
+        "/-- bcif.py: string keys used by serialize / deserialize / write of every component class. -/",
+        "def containerKeys : List (String × List String) := [" + ", ".join(f'("{k}", {lstr(v)})' for k, v in sorted(bkeys.items())) + "]",
+        f"def blockPrefixAdded : Nat := {prefix_add}",
+        f"def blockPrefixStripped : Nat := {prefix_strip}",
         "/-- `_find_best_integer_compression`: the three loop domains, the encoding classes in the order a chain is extended, and the",
         "`later = earlier + [encoding]` steps (regenerated from compress.py with `ast`). -/",
         "def deltaDomain : List Bool := " + lbool(loops["use_delta"]),
